@@ -12,7 +12,7 @@ from flipjump.fjm import fjm_reader
 from flipjump.interpreter.debugging.user_queries import ask_for_command, show_message
 from flipjump.utils.classes import RunStatistics
 from flipjump.utils.constants import MACRO_SEPARATOR_STRING
-from flipjump.utils.exceptions import FlipJumpException
+from flipjump.utils.exceptions import FlipJumpException, FlipJumpRuntimeMemoryException
 from flipjump.utils.functions import load_debugging_labels
 
 
@@ -217,7 +217,12 @@ class BreakpointHandler:
         """
         address = self.get_address_str(ip)
         flip = self.get_address_str(mem.get_word(ip))
-        jump = self.get_address_str(mem.get_word(ip + mem.memory_width))
+        try:
+            jump = self.get_address_str(mem.get_word(ip + mem.memory_width))
+        except FlipJumpRuntimeMemoryException:
+            # the jump word is (partly) outside the defined memory. the op itself reports that when it
+            #  gets there - after its output / input / flip, which showing the pause must not skip.
+            jump = 'unreadable (outside the defined memory)'
         return f'Address {address}.\n\n{op_counter} ops executed.\n\nflip {flip}.\n\njump {jump}.'
 
     def handle_read_memory(self, target: str, mem: fjm_reader.Reader) -> None:
